@@ -813,3 +813,717 @@ Section ParProofs.
       intros Hin. apply In_upd_nth in Hin. destruct Hin as [Hin|Hin]; [unfold pe in Hin; destruct ea; discriminate|].
       apply in_map_iff in Hin. destruct Hin as (a & Ha & _). destruct a; discriminate.
   Qed.
+
+  Theorem par_step_inv s w s' st : PInv s -> par_step st_eqb cfg s w = Some (s', st) -> PInv s'.
+  Proof. intros HI H. eapply pstep_inv; [exact HI|]. eapply par_step_cases; eauto. Qed.
+
+  (* ------------------------------------------------------------------ initial state *)
+  Definition init_lb (primal : option (Z * list decision)) : Z :=
+    match primal with Some (v, _) => if v >? IMIN then v else IMIN | None => IMIN end.
+  Definition init_sol (primal : option (Z * list decision)) : option (list decision) :=
+    match primal with Some (v, sl) => if v >? IMIN then Some sl else None | None => None end.
+
+  Lemma view_init c n primal : view (init_pstate st_eqb cfg c n primal) =
+    mkV [root_node cfg] O (upd_nth O S (repeat O (S N))) (repeat O (S N)) (init_lb primal) IMAX (init_sol primal)
+        c false false (repeat PGetWork n).
+  Proof.
+    unfold init_pstate. rewrite simple_fringe.
+    destruct primal as [[v sl]|]; [destruct (v >? IMIN) eqn:E|]; vsimp; unfold init_lb, init_sol; rewrite ?E, repeat_length;
+      reflexivity.
+  Qed.
+
+  Lemma PInv_init T primal : PInv (init_pstate st_eqb cfg T T primal).
+  Proof.
+    unfold PInv. rewrite view_init. unfold PInvV.
+    cbn [v_simple v_ongoing v_open v_obl v_lb v_ub v_sol v_nubs v_abort v_crash v_workers].
+    split; [reflexivity|]. split; [symmetry; apply cntp_repeat_false; reflexivity|].
+    split; [rewrite upd_nth_length, repeat_length; reflexivity|]. split; [apply repeat_length|]. split.
+    { intros d Hd. rewrite nth_error_repeat by lia. f_equal. symmetry. apply cntp_repeat_false. reflexivity. }
+    split.
+    { apply Forall_forall. intros p Hp. apply repeat_spec in Hp. subst p. exact I. }
+    split.
+    { intros n [<-|[]]. split; [exact good_root|]. cbn [root_node sp_depth]. lia. }
+    split.
+    { right. intros d Hd. destruct d as [|d].
+      - reflexivity.
+      - cbn [repeat upd_nth nth_error]. rewrite nth_error_repeat by lia.
+        rewrite cnt_cons_other by (cbn [root_node sp_depth]; lia). reflexivity. }
+    split; [rewrite repeat_length; reflexivity|].
+    intros Hin. apply repeat_spec in Hin. discriminate.
+  Qed.
+
+  (* ------------------------------------------------------------------ no deadlock *)
+  Definition runnable (p : pc) : bool := match p with PParked | PExited => false | _ => true end.
+
+  Lemma enabled_spec s w : In w (enabled s) <-> exists p, nth_error (p_workers s) w = Some p /\ runnable p = true.
+  Proof.
+    unfold enabled. rewrite filter_In, in_seq. split.
+    - intros [_ H]. destruct (nth_error (p_workers s) w) as [p|]; [|discriminate]. exists p. split; [reflexivity|].
+      destruct p; try discriminate; reflexivity.
+    - intros (p & Hp & Hr). split; [pose proof (nth_error_Some_lt _ _ _ Hp); lia|]. rewrite Hp.
+      destruct p; try discriminate; reflexivity.
+  Qed.
+
+  Lemma choose_spec en sched last : en <> [] -> exists w rest, choose en sched last = (Some w, rest) /\ In w en.
+  Proof.
+    intros Hne. destruct en as [|e en]; [congruence|]. unfold choose.
+    destruct sched as [|c sched].
+    - destruct last as [l|].
+      + destruct (existsb (Nat.eqb l) (e :: en)) eqn:Ex.
+        * apply existsb_exists in Ex. destruct Ex as (x & Hx & Heq). apply Nat.eqb_eq in Heq. subst x. eauto.
+        * exists e, []. split; [reflexivity|left; reflexivity].
+      + exists e, []. split; [reflexivity|left; reflexivity].
+    - destruct (nth_error_lt_Some (e :: en) (Nat.modulo c (length (e :: en)))) as [x Hx].
+      { apply Nat.mod_upper_bound. cbn [length]. lia. }
+      exists x, sched. rewrite Hx. split; [reflexivity|]. eapply nth_error_In; eauto.
+  Qed.
+
+  Lemma par_step_enabled s w : In w (enabled s) -> exists s' st, par_step st_eqb cfg s w = Some (s', st).
+  Proof.
+    intros H. apply enabled_spec in H. destruct H as (p & Hp & Hr). unfold par_step. rewrite Hp.
+    destruct p; try discriminate.
+    - destruct (get_workload st_eqb cfg s w) as [s1 r]. eauto.
+    - eauto.
+    - eauto.
+    - destruct (p_compile st_eqb cfg s Relaxed n (p_lb s)) as [[[s1 inp] m] o]. eauto.
+    - eauto.
+    - eauto.
+    - destruct (pf_pop st_eqb cfg s) as [s1 top]. eauto.
+    - destruct (p_ongoing s); [eauto|]. destruct (nth_error (p_ongoing_by_layer s) (sp_depth n)) as [[|j]|]; [eauto| |eauto].
+      destruct (nth_error (p_upper_bounds s) w); eauto.
+  Qed.
+
+  Lemma forallb_false_ex {A} (f : A -> bool) l : forallb f l = false -> exists x, In x l /\ f x = false.
+  Proof.
+    induction l as [|x l IH]; cbn [forallb]; [discriminate|]. destruct (f x) eqn:E.
+    - intros H. destruct (IH H) as (y & Hy & Hf). exists y. split; [right; exact Hy|exact Hf].
+    - intros _. exists x. split; [left; reflexivity|exact E].
+  Qed.
+
+  (* the lost-wake-up argument: somebody who is neither parked nor exited always exists *)
+  Lemma no_deadlock_state s : PInv s -> all_exited s = false -> enabled s <> [].
+  Proof.
+    intros (I1 & I2 & I3 & I4 & I5 & I6 & I7 & I8 & I9 & I10) Hne Hen.
+    cbn [view v_simple v_ongoing v_open v_obl v_lb v_ub v_sol v_nubs v_abort v_crash v_workers] in *.
+    assert (Hnone : forall w p, nth_error (p_workers s) w = Some p -> runnable p = false).
+    { intros w p Hp. destruct (runnable p) eqn:E; [|reflexivity].
+      assert (Hin : In w (enabled s)) by (apply enabled_spec; eauto). rewrite Hen in Hin. destruct Hin. }
+    apply forallb_false_ex in Hne. destruct Hne as (p & Hp & Hf).
+    apply In_nth_error in Hp. destruct Hp as [w Hw]. pose proof (Hnone _ _ Hw) as Hr.
+    assert (p = PParked) by (destruct p; try discriminate; reflexivity). subst p.
+    apply nth_error_In in Hw. specialize (I10 Hw). rewrite I2 in I10.
+    apply cntp_pos_In in I10. destruct I10 as (q & Hq & Hb).
+    apply In_nth_error in Hq. destruct Hq as [w' Hw']. pose proof (Hnone _ _ Hw') as Hr'.
+    destruct q; discriminate.
+  Qed.
+
+  Lemma par_run_inv : forall fuel s sched last trace s' tr e, PInv s ->
+    par_run st_eqb cfg fuel s sched last trace = (s', tr, e) -> PInv s' /\ e <> PDeadlock.
+  Proof.
+    induction fuel as [|fuel IH]; intros s sched last trace s' tr e HI; cbn [par_run].
+    - intros H; inversion H; subst. split; [exact HI|discriminate].
+    - destruct (all_exited s) eqn:Eall.
+      + intros H; inversion H; subst. split; [exact HI|discriminate].
+      + pose proof (no_deadlock_state s HI Eall) as Hen.
+        destruct (choose_spec (enabled s) sched last Hen) as (w & rest & Hch & Hin). rewrite Hch.
+        destruct (par_step_enabled s w Hin) as (s1 & st & Hst). rewrite Hst.
+        apply IH. eapply par_step_inv; eauto.
+  Qed.
+
+  (* C04, first half: for every schedule, thread count and fuel the run never deadlocks ... *)
+  Theorem par_no_deadlock T primal fuel sched s' tr e :
+    par_run st_eqb cfg fuel (init_pstate st_eqb cfg T T primal) sched None [] = (s', tr, e) ->
+    e = PFinished \/ e = POutOfFuel.
+  Proof.
+    intros H. apply par_run_inv in H; [|apply PInv_init]. destruct H as [_ H]. destruct e; auto. congruence.
+  Qed.
+
+  (* ... and no worker ever panics *)
+  Theorem par_never_crashes T primal fuel sched s' tr e :
+    par_run st_eqb cfg fuel (init_pstate st_eqb cfg T T primal) sched None [] = (s', tr, e) -> p_crash s' = false.
+  Proof.
+    intros H. apply par_run_inv in H; [|apply PInv_init]. destruct H as [H _]. apply H.
+  Qed.
+
+  Corollary par_maximize_no_deadlock_no_crash T primal fuel sched :
+    pr_end (par_maximize st_eqb cfg fuel T T primal sched) <> PDeadlock /\
+    pr_crash (par_maximize st_eqb cfg fuel T T primal sched) = false.
+  Proof.
+    unfold par_maximize.
+    destruct (par_run st_eqb cfg fuel (init_pstate st_eqb cfg T T primal) sched None []) as [[s' tr] e] eqn:E.
+    cbn [pr_end pr_crash]. apply par_run_inv in E; [|apply PInv_init]. destruct E as [HI He]. split; [exact He|apply HI].
+  Qed.
+
+  (* reachable states *)
+  Inductive reachable (T : nat) (primal : option (Z * list decision)) : pstate -> Prop :=
+  | R_init : reachable T primal (init_pstate st_eqb cfg T T primal)
+  | R_step s w s' st : reachable T primal s -> par_step st_eqb cfg s w = Some (s', st) -> reachable T primal s'.
+
+  Lemma reachable_PInv T primal s : reachable T primal s -> PInv s.
+  Proof. induction 1; [apply PInv_init|eapply par_step_inv; eauto]. Qed.
+
+  (* C04, second half: completion is declared only when nothing is open or in progress *)
+  Lemma complete_only_when_idle_inv s w s1 : PInv s -> (w < length (p_workers s))%nat ->
+    get_workload st_eqb cfg s w = (s1, GWComplete) ->
+    p_ongoing s = O /\ p_simple s = [] /\ pf_len cfg s = O /\ p_abort s = false /\
+    (forall w' p, nth_error (p_workers s) w' = Some p -> busy_node p = None /\ p <> PParked).
+  Proof.
+    intros HI Hw Hg. pose proof (get_workload_spec s w s1 _ HI Hw Hg) as Hs. inversion Hs as [G1 G2 G3 Hv| | | |].
+    split; [exact G1|]. split; [exact G2|]. split; [rewrite pf_len_simple, G2; reflexivity|]. split; [exact G3|].
+    destruct HI as (I1 & I2 & I3 & I4 & I5 & I6 & I7 & I8 & I9 & I10).
+    cbn [view v_simple v_ongoing v_open v_obl v_lb v_ub v_sol v_nubs v_abort v_crash v_workers] in *.
+    intros w' p Hp. split.
+    - destruct (busy_node p) eqn:Eb; [|reflexivity].
+      assert (Hb : is_busy p = true) by (unfold is_busy; rewrite Eb; reflexivity).
+      pose proof (busy_cnt_pos _ _ _ Hp Hb). lia.
+    - intros ->. apply nth_error_In in Hp. specialize (I10 Hp). lia.
+  Qed.
+
+  Theorem complete_only_when_idle T primal s w s1 : reachable T primal s -> (w < length (p_workers s))%nat ->
+    get_workload st_eqb cfg s w = (s1, GWComplete) ->
+    p_ongoing s = O /\ p_simple s = [] /\ pf_len cfg s = O /\ p_abort s = false /\
+    (forall w' p, nth_error (p_workers s) w' = Some p -> busy_node p = None /\ p <> PParked).
+  Proof. intros HR. apply complete_only_when_idle_inv. eapply reachable_PInv; eauto. Qed.
+
+  End PartA.
+
+  (* ================================================================== PARTS B and C: branch-and-bound contracts *)
+  Section PartBC.
+  Variable best : subproblem -> option Z.
+  Variable feasible : list decision -> Z -> Prop.
+  Notation OPT := (@OPT St cfg best).
+
+  Hypothesis no_cutoff : sc_cutoff cfg = O.
+  Hypothesis no_domrule : sc_domrule cfg = None.
+
+  Hypothesis feasible_le_opt : forall sol v, feasible sol v -> exists o, OPT = Some o /\ v <= o.
+  Hypothesis opt_in_isize : forall o, OPT = Some o -> IMIN < o <= IMAX.
+  Hypothesis best_set_ub : forall c u, best (set_ub c u) = best c.
+
+  Variable M : nat.
+
+  Hypothesis K0 : forall ct n lb c ds polls m out,
+    dd_ct ct -> good n -> (sp_depth n <= N)%nat ->
+    compile st_eqb (mk_input cfg ct n lb) 0 0 c ds polls = (m, out) ->
+    out = Compiled /\ m_crash m = false.
+  Hypothesis K1 : forall ct n lb c ds polls m out,
+    dd_ct ct -> good n -> (sp_depth n <= N)%nat ->
+    compile st_eqb (mk_input cfg ct n lb) 0 0 c ds polls = (m, out) ->
+    forall v, dd_best_exact_value (mk_input cfg ct n lb) m = Some v ->
+    exists sol, dd_best_exact_solution (mk_input cfg ct n lb) m = Some sol /\ feasible sol v.
+  Hypothesis K2 : forall ct n lb c ds polls m out,
+    dd_ct ct -> good n -> (sp_depth n <= N)%nat ->
+    compile st_eqb (mk_input cfg ct n lb) 0 0 c ds polls = (m, out) ->
+    dd_is_exact m = true ->
+    forall o, best n = Some o -> o > lb -> dd_best_exact_value (mk_input cfg ct n lb) m = Some o.
+  Hypothesis K3_good : forall n lb c ds polls m out,
+    good n -> (sp_depth n <= N)%nat ->
+    compile st_eqb (mk_input cfg Relaxed n lb) 0 0 c ds polls = (m, out) ->
+    dd_is_exact m = false ->
+    forall x, In x (drain_cutset (mk_input cfg Relaxed n lb) m) -> good x.
+  Hypothesis K3_depth : forall n lb c ds polls m out,
+    good n -> (sp_depth n <= N)%nat ->
+    compile st_eqb (mk_input cfg Relaxed n lb) 0 0 c ds polls = (m, out) ->
+    dd_is_exact m = false ->
+    forall x, In x (drain_cutset (mk_input cfg Relaxed n lb) m) -> (sp_depth n < sp_depth x <= N)%nat.
+  Hypothesis K3_ub : forall n lb c ds polls m out,
+    good n -> (sp_depth n <= N)%nat ->
+    compile st_eqb (mk_input cfg Relaxed n lb) 0 0 c ds polls = (m, out) ->
+    dd_is_exact m = false ->
+    forall x, In x (drain_cutset (mk_input cfg Relaxed n lb) m) ->
+    forall o, best x = Some o -> o > lb -> o <= sp_ub x.
+  Hypothesis K4 : forall n lb c ds polls m out,
+    good n -> (sp_depth n <= N)%nat ->
+    compile st_eqb (mk_input cfg Relaxed n lb) 0 0 c ds polls = (m, out) ->
+    dd_is_exact m = false ->
+    forall o, best n = Some o -> o > lb ->
+    (forall e, dd_best_exact_value (mk_input cfg Relaxed n lb) m = Some e -> e < o) ->
+    exists x, In x (drain_cutset (mk_input cfg Relaxed n lb) m) /\ best x = Some o.
+  Hypothesis K5 : forall n lb c ds polls m out,
+    good n -> (sp_depth n <= N)%nat ->
+    compile st_eqb (mk_input cfg Relaxed n lb) 0 0 c ds polls = (m, out) ->
+    dd_is_exact m = false ->
+    (length (drain_cutset (mk_input cfg Relaxed n lb) m) <= M)%nat.
+
+  (* the assumptions of part A follow from the contracts *)
+  Lemma HA_nocrash_K : forall ct n lb c ds polls m out,
+    dd_ct ct -> good n -> (sp_depth n <= N)%nat ->
+    compile st_eqb (mk_input cfg ct n lb) 0 0 c ds polls = (m, out) -> m_crash m = false.
+  Proof. intros. eapply K0; eauto. Qed.
+  Lemma HA_cut_K : forall n lb c ds polls m,
+    good n -> (sp_depth n <= N)%nat ->
+    compile st_eqb (mk_input cfg Relaxed n lb) 0 0 c ds polls = (m, Compiled) ->
+    dd_is_exact m = false ->
+    forall x, In x (drain_cutset (mk_input cfg Relaxed n lb) m) -> good x /\ (sp_depth x <= N)%nat.
+  Proof.
+    intros n lb c ds polls m Hg Hd Hc Hex x Hx. split; [eapply K3_good; eauto|].
+    pose proof (K3_depth _ _ _ _ _ _ _ Hg Hd Hc Hex x Hx). lia.
+  Qed.
+
+  Lemma step_cases s w s' st : PInv s -> par_step st_eqb cfg s w = Some (s', st) -> pstep s w s'.
+  Proof. apply par_step_cases. exact HA_cut_K. Qed.
+  Lemma step_pinv s w s' : PInv s -> pstep s w s' -> PInv s'.
+  Proof. apply pstep_inv; [exact HA_nocrash_K|exact HA_cut_K]. Qed.
+
+  (* ------------------------------------------------------------------ (C) the semantic invariant *)
+  (* the pcs that still carry the responsibility for the completions of their node *)
+  Definition owner (p : pc) : option subproblem :=
+    match p with
+    | PReadLb1 n | PUpdate1 n _ _ | PReadLb2 n | PUpdate2 n _ _ | PEnqueue n _ _ => Some n
+    | _ => None
+    end.
+  Definition calm (p : pc) : Prop := match p with PAbort _ | PNotify _ true => False | _ => True end.
+
+  Definition ComplV (v : vw) : Prop :=
+    forall o, OPT = Some o ->
+      o <= v_lb v \/
+      exists n, (In n (v_simple v) \/ exists p, In p (v_workers v) /\ owner p = Some n) /\ best n = Some o /\ o <= sp_ub n.
+  Definition ExitV (v : vw) : Prop :=
+    In PExited (v_workers v) -> v_simple v = [] /\ v_ongoing v = O /\ v_ub v = v_lb v.
+  Definition CInvV (T : nat) (v : vw) : Prop :=
+    v_abort v = false /\ Forall calm (v_workers v) /\ Incumbent feasible (v_lb v) (v_sol v) /\
+    ComplV v /\ ExitV v /\ v_nubs v = T.
+  Definition CInv (T : nat) (s : pstate) : Prop := CInvV T (view s).
+
+  Lemma In_upd_nth_keep {A} w (x p : A) l : In p l -> In p (upd_nth w (fun _ => x) l) \/ nth_error l w = Some p.
+  Proof.
+    revert w; induction l as [|y l IH]; intros w; [intros []|]. intros [H|H].
+    - subst y. destruct w; [right; reflexivity|left; left; reflexivity].
+    - destruct w as [|w]; [left; right; exact H|]. destruct (IH w H) as [H'|H']; [left; right; exact H'|right; exact H'].
+  Qed.
+  Lemma nth_error_upd_In {A} w (x old : A) l : nth_error l w = Some old -> In x (upd_nth w (fun _ => x) l).
+  Proof. intros H. eapply nth_error_In. apply (nth_error_upd_nth_same w (fun _ => x) l old H). Qed.
+
+  Lemma CInvV_frame T v ws0 w p p' simple' ongoing' open' obl' lb' ub' sol' crash' :
+    CInvV T v ->
+    nth_error ws0 w = Some p ->
+    (forall p0, In p0 (v_workers v) -> owner p0 = None \/ In p0 ws0) ->
+    Forall calm ws0 -> calm p' ->
+    Incumbent feasible lb' sol' -> v_lb v <= lb' ->
+    (forall n, In n (v_simple v) ->
+       In n simple' \/ owner p' = Some n \/ forall o, best n = Some o -> o <= sp_ub n -> o <= lb') ->
+    (forall n o, owner p = Some n -> OPT = Some o -> best n = Some o -> o <= sp_ub n ->
+       owner p' = Some n \/ o <= lb' \/ exists c, In c simple' /\ best c = Some o /\ o <= sp_ub c) ->
+    (In PExited (upd_nth w (fun _ => p') ws0) -> simple' = [] /\ ongoing' = O /\ ub' = lb') ->
+    CInvV T (mkV simple' ongoing' open' obl' lb' ub' sol' (v_nubs v) false crash' (upd_nth w (fun _ => p') ws0)).
+  Proof.
+    intros (C1 & C2 & C3 & C4 & C5 & C6) Ew Hown Hcalm0 Hcalm Hinc Hlb Hsim Hresp Hexit.
+    unfold CInvV. cbn [v_simple v_ongoing v_open v_obl v_lb v_ub v_sol v_nubs v_abort v_crash v_workers].
+    split; [reflexivity|]. split; [apply Forall_upd_nth; assumption|]. split; [exact Hinc|]. split; [|split; [exact Hexit|exact C6]].
+    unfold ComplV. cbn [v_simple v_ongoing v_open v_obl v_lb v_ub v_sol v_nubs v_abort v_crash v_workers].
+    intros o Ho. destruct (C4 o Ho) as [Hle|(n & [Hn|(p0 & Hp0 & Hown0)] & Hb & Hu)].
+    - left. lia.
+    - destruct (Hsim n Hn) as [H|[H|H]].
+      + right. exists n. auto.
+      + right. exists n. split; [right; exists p'; split; [eapply nth_error_upd_In; eauto|exact H]|auto].
+      + left. apply H; assumption.
+    - destruct (Hown p0 Hp0) as [H|H]; [congruence|].
+      destruct (In_upd_nth_keep w p' p0 ws0 H) as [H'|H'].
+      + right. exists n. split; [right; exists p0; auto|auto].
+      + assert (p0 = p) by congruence. subst p0.
+        destruct (Hresp n o Hown0 Ho Hb Hu) as [H1|[H1|(c & Hc & Hbc & Huc)]].
+        * right. exists n. split; [right; exists p'; split; [eapply nth_error_upd_In; eauto|exact H1]|auto].
+        * left. exact H1.
+        * right. exists c. auto.
+  Qed.
+
+  Lemma busy_excl_exit s w p : PInv s -> ExitV (view s) -> nth_error (p_workers s) w = Some p -> is_busy p = true ->
+    In PExited (p_workers s) -> False.
+  Proof.
+    intros (I1 & I2 & _) HE Ew Hb Hin. destruct (HE Hin) as (_ & H0 & _).
+    cbn [view v_ongoing v_workers] in *. pose proof (busy_cnt_pos _ _ _ Ew Hb). lia.
+  Qed.
+
+  Lemma calm_wake p : calm p -> calm (wake p).
+  Proof. destruct p; auto. Qed.
+
+  Lemma pstep_cinv T s w s' : PInv s -> CInv T s -> pstep s w s' -> CInv T s'.
+  Proof.
+    intros HI HC Hst. pose proof HI as HI'. unfold PInv, PInvV, view in HI'.
+    cbn [v_simple v_ongoing v_open v_obl v_lb v_ub v_sol v_nubs v_abort v_crash v_workers] in HI'.
+    destruct HI' as (I1 & I2 & I3 & I4 & I5 & I6 & I7 & I8 & I9 & I10).
+    pose proof HC as HC'. unfold CInv, CInvV, view in HC'.
+    cbn [v_simple v_ongoing v_open v_obl v_lb v_ub v_sol v_nubs v_abort v_crash v_workers] in HC'.
+    destruct HC' as (C1 & C2 & C3 & C4 & C5 & C6).
+    assert (Hownid : forall p0, In p0 (v_workers (view s)) -> owner p0 = None \/ In p0 (p_workers s)) by (intros; right; assumption).
+    assert (Hsimid : forall (p' : pc) lb' n, In n (v_simple (view s)) ->
+       In n (p_simple s) \/ owner p' = Some n \/ forall o, best n = Some o -> o <= sp_ub n -> o <= lb') by (intros; left; assumption).
+    assert (Hlbid : v_lb (view s) <= p_lb s) by (cbn; lia).
+    unfold CInv.
+    destruct Hst as [Ew G1 G2 G3 Hv|Ew G1 Hv|Ew G1 G2 G3 Hv|x rest Ew G1 G2 G3 Hv|x rest k Ew G1 G2 G3 G4 Hv
+                    |n Ew G1 Hv|n m o c ds polls Ew G1 Hc Hv|n inp m Ew Hv|n m o c ds polls Ew Hc Hv|n inp m Ew Hv
+                    |n inp m op' Ew L1 L2 Hv|n ub' Ew Hv|n ea k j Ew G1 G2 Hv];
+      rewrite Hv; unfold vW, setw; rewrite ?C1;
+      pose proof (Forall_nth_error _ _ _ _ I6 Ew) as Hok; cbn [pc_ok] in Hok;
+      pose proof (Forall_nth_error _ _ _ _ C2 Ew) as Hcalm; cbn [calm] in Hcalm.
+    - (* complete *)
+      apply (CInvV_frame T (view s) (p_workers s) w PGetWork PExited); auto; try exact I; try (intros; discriminate).
+    - congruence.
+    - (* wait *)
+      apply (CInvV_frame T (view s) (p_workers s) w PGetWork PParked); auto; try exact I; try (intros; discriminate).
+      + intros Hin. apply In_upd_nth in Hin. destruct Hin as [Hin|Hin]; [discriminate|].
+        destruct (C5 Hin) as (_ & H0 & _). cbn in H0. lia.
+    - (* starvation: the popped node has the largest upper bound of the fringe *)
+      apply (CInvV_frame T (view s) (p_workers s) w PGetWork PGetWork); auto; try exact I; try (intros; discriminate).
+      + intros n Hn. right; right. intros o Hb Hu. pose proof (pq_pop_max _ _ _ G2 n Hn). lia.
+      + intros Hin. apply In_upd_nth in Hin. destruct Hin as [Hin|Hin]; [discriminate|].
+        destruct (C5 Hin) as (H0 & _). cbn in H0. rewrite H0 in G2. discriminate.
+    - (* item *)
+      apply (CInvV_frame T (view s) (p_workers s) w PGetWork (PReadLb1 x)); auto; try exact I; try (intros; discriminate).
+      + intros n Hn. pose proof (pq_pop_perm _ _ _ _ G2) as Hperm.
+        eapply Permutation_in in Hn; [|exact Hperm]. destruct Hn as [Hn|Hn]; [right; left; subst; reflexivity|left; exact Hn].
+      + intros Hin. apply In_upd_nth in Hin. destruct Hin as [Hin|Hin]; [discriminate|].
+        destruct (C5 Hin) as (H0 & _). cbn in H0. rewrite H0 in G2. discriminate.
+    - (* prune *)
+      apply (CInvV_frame T (view s) (p_workers s) w (PReadLb1 n) (PNotify n false)); auto; try exact I; try (intros; discriminate).
+      + intros n0 o Hown _ Hb Hu. injection Hown as <-. right; left. lia.
+      + intros Hin. apply In_upd_nth in Hin. destruct Hin as [Hin|Hin]; [discriminate|].
+        exfalso. eapply busy_excl_exit; eauto.
+    - (* compile1 *)
+      destruct Hok as [Hg Hd]. destruct (K0 Restricted _ _ _ _ _ _ _ (or_introl eq_refl) Hg Hd Hc) as [-> Hmc].
+      apply (CInvV_frame T (view s) (p_workers s) w (PReadLb1 n) (PUpdate1 n (mk_input cfg Restricted n (p_lb s)) m)); auto; try exact I; try (intros; discriminate).
+      + intros Hin. apply In_upd_nth in Hin. destruct Hin as [Hin|Hin]; [discriminate|].
+        exfalso. eapply busy_excl_exit; eauto.
+    - (* update1 *)
+      destruct Hok as (Hg & Hd & (lb0 & c & ds & polls & Hlb0 & -> & Hc)).
+      destruct (mub_lb_ge (p_lb s) (mk_input cfg Restricted n lb0) m) as [Hge Hev].
+      apply (CInvV_frame T (view s) (p_workers s) w (PUpdate1 n (mk_input cfg Restricted n lb0) m)); auto; try exact I; try (intros; discriminate).
+      + destruct (dd_is_exact m); exact I.
+      + destruct C3 as [Hmin Hinc]. destruct (mub_lb_spec (p_lb s) (mk_input cfg Restricted n lb0) m Hmin) as [[E1 E2]|(v & Hv1 & Hv2 & E1 & E2)].
+        * rewrite E1, E2. split; assumption.
+        * rewrite E1, E2. destruct (K1 Restricted _ _ _ _ _ _ _ (or_introl eq_refl) Hg Hd Hc v Hv1) as (sol & Hs & Hf).
+          split; [lia|]. right. exists sol. auto.
+      + intros n0 o Hown _ Hb Hu. injection Hown as <-. destruct (dd_is_exact m) eqn:Eex; [|left; reflexivity].
+        right; left. destruct (Z_le_gt_dec o lb0) as [Hle|Hgt]; [lia|]. apply Hev.
+        eapply (K2 Restricted); eauto. left; reflexivity.
+      + intros Hin. apply In_upd_nth in Hin. destruct Hin as [Hin|Hin]; [destruct (dd_is_exact m); discriminate|].
+        exfalso. eapply busy_excl_exit; eauto.
+    - (* compile2 *)
+      destruct Hok as [Hg Hd]. destruct (K0 Relaxed _ _ _ _ _ _ _ (or_intror eq_refl) Hg Hd Hc) as [-> Hmc].
+      apply (CInvV_frame T (view s) (p_workers s) w (PReadLb2 n) (PUpdate2 n (mk_input cfg Relaxed n (p_lb s)) m)); auto; try exact I; try (intros; discriminate).
+      + intros Hin. apply In_upd_nth in Hin. destruct Hin as [Hin|Hin]; [discriminate|].
+        exfalso. eapply busy_excl_exit; eauto.
+    - (* update2 *)
+      destruct Hok as (Hg & Hd & (lb0 & c & ds & polls & Hlb0 & -> & Hc)).
+      destruct (mub_lb_ge (p_lb s) (mk_input cfg Relaxed n lb0) m) as [Hge Hev].
+      apply (CInvV_frame T (view s) (p_workers s) w (PUpdate2 n (mk_input cfg Relaxed n lb0) m)); auto; try exact I; try (intros; discriminate).
+      + destruct (dd_is_exact m); exact I.
+      + destruct C3 as [Hmin Hinc]. destruct (mub_lb_spec (p_lb s) (mk_input cfg Relaxed n lb0) m Hmin) as [[E1 E2]|(v & Hv1 & Hv2 & E1 & E2)].
+        * rewrite E1, E2. split; assumption.
+        * rewrite E1, E2. destruct (K1 Relaxed _ _ _ _ _ _ _ (or_intror eq_refl) Hg Hd Hc v Hv1) as (sol & Hs & Hf).
+          split; [lia|]. right. exists sol. auto.
+      + intros n0 o Hown _ Hb Hu. injection Hown as <-. destruct (dd_is_exact m) eqn:Eex; [|left; reflexivity].
+        right; left. destruct (Z_le_gt_dec o lb0) as [Hle|Hgt]; [lia|]. apply Hev.
+        eapply (K2 Relaxed); eauto. right; reflexivity.
+      + intros Hin. apply In_upd_nth in Hin. destruct Hin as [Hin|Hin]; [destruct (dd_is_exact m); discriminate|].
+        exfalso. eapply busy_excl_exit; eauto.
+    - (* enqueue *)
+      destruct Hok as (Hg & Hd & (lb0 & c & ds & polls & Hlb0 & -> & Hc) & Hex & Hev).
+      apply (CInvV_frame T (view s) (p_workers s) w (PEnqueue n (mk_input cfg Relaxed n lb0) m) (PNotify n false)); auto; try exact I; try (intros; discriminate).
+      + intros n0 Hn0. left. apply in_or_app. right. exact Hn0.
+      + intros n0 o Hown _ Hb Hu. injection Hown as <-. right.
+        destruct (Z_le_gt_dec o (p_lb s)) as [Hle|Hgt]; [left; exact Hle|right].
+        assert (Hgt0 : o > lb0) by lia.
+        destruct (K4 _ _ _ _ _ _ _ Hg Hd Hc Hex o Hb Hgt0) as (x & Hx & Hbx).
+        { intros e He. specialize (Hev e He). lia. }
+        assert (Hux : o <= sp_ub x) by (eapply K3_ub; eauto).
+        exists (set_ub x (Z.min (sp_ub n) (sp_ub x))). split; [|split].
+        * apply in_or_app. left. apply -> in_rev. apply In_kept. exists x. split; [exact Hx|]. split; [lia|reflexivity].
+        * rewrite best_set_ub. exact Hbx.
+        * cbn [set_ub sp_ub]. lia.
+      + intros Hin. apply In_upd_nth in Hin. destruct Hin as [Hin|Hin]; [discriminate|].
+        exfalso. eapply busy_excl_exit; eauto.
+    - destruct Hcalm.
+    - (* notify *)
+      destruct ea; [destruct Hcalm|].
+      apply (CInvV_frame T (view s) (map wake (p_workers s)) w (PNotify n false) PGetWork); auto; try exact I; try (intros; discriminate).
+      + rewrite nth_error_map, Ew. reflexivity.
+      + intros p0 Hp0. destruct (owner p0) eqn:E; [right|left; reflexivity]. apply in_map_iff. exists p0.
+        split; [destruct p0; try discriminate; reflexivity|exact Hp0].
+      + rewrite Forall_map. eapply Forall_impl; [|exact C2]. intros a. apply calm_wake.
+      + intros Hin. apply In_upd_nth in Hin. destruct Hin as [Hin|Hin]; [discriminate|].
+        apply in_map_iff in Hin. destruct Hin as (a & Ha & Hin). assert (a = PExited) by (destruct a; try discriminate; reflexivity).
+        subst a. exfalso. eapply (busy_excl_exit s w (PNotify n false)); eauto.
+  Qed.
+
+  Definition primal_okP (primal : option (Z * list decision)) : Prop :=
+    forall pv psol, primal = Some (pv, psol) -> feasible psol pv.
+
+  Lemma CInv_init T primal : primal_okP primal -> CInv T (init_pstate st_eqb cfg T T primal).
+  Proof.
+    intros Hp. unfold CInv. rewrite view_init. unfold CInvV, ComplV, ExitV.
+    cbn [v_simple v_ongoing v_open v_obl v_lb v_ub v_sol v_nubs v_abort v_crash v_workers].
+    split; [reflexivity|]. split.
+    { apply Forall_forall. intros p Hin. apply repeat_spec in Hin. subst p. exact I. }
+    split.
+    { unfold init_lb, init_sol. destruct primal as [[v sl]|].
+      - destruct (v >? IMIN) eqn:E.
+        + rewrite Z.gtb_ltb in E. apply Z.ltb_lt in E. split; [lia|]. right. exists sl. split; [reflexivity|]. apply Hp. reflexivity.
+        + split; [lia|]. left. auto.
+      - split; [lia|]. left. auto. }
+    split.
+    { intros o Ho. right. exists (root_node cfg). split; [left; left; reflexivity|]. split; [exact Ho|].
+      cbn [root_node sp_ub]. apply opt_in_isize. exact Ho. }
+    split; [|reflexivity]. intros Hin. apply repeat_spec in Hin. discriminate.
+  Qed.
+
+  Lemma par_run_cinv T : forall fuel s sched last trace s' tr e, PInv s -> CInv T s ->
+    par_run st_eqb cfg fuel s sched last trace = (s', tr, e) ->
+    PInv s' /\ CInv T s' /\ (e = PFinished -> all_exited s' = true).
+  Proof.
+    induction fuel as [|fuel IH]; intros s sched last trace s' tr e HI HC; cbn [par_run].
+    - intros H; inversion H; subst. split; [exact HI|]. split; [exact HC|discriminate].
+    - destruct (all_exited s) eqn:Eall.
+      + intros H; inversion H; subst. auto.
+      + destruct (choose (enabled s) sched last) as [[w|] rest].
+        2:{ intros H; inversion H; subst. split; [exact HI|]. split; [exact HC|discriminate]. }
+        destruct (par_step st_eqb cfg s w) as [[s1 st]|] eqn:Hst.
+        2:{ intros H; inversion H; subst. split; [exact HI|]. split; [exact HC|discriminate]. }
+        pose proof (step_cases _ _ _ _ HI Hst) as Hps.
+        apply IH; [eapply step_pinv; eauto|eapply pstep_cinv; eauto].
+  Qed.
+
+  Lemma all_exited_spec (s : pstate) : all_exited s = true -> forall p, In p (p_workers s) -> p = PExited.
+  Proof.
+    unfold all_exited. intros H p Hp. rewrite forallb_forall in H. specialize (H p Hp). destruct p; try discriminate; reflexivity.
+  Qed.
+
+  (* what a finished run has computed *)
+  Definition FinalP (s : pstate) : Prop :=
+    p_crash s = false /\ p_abort s = false /\ p_ub s = p_lb s /\ Incumbent feasible (p_lb s) (p_sol s) /\
+    (forall o, OPT = Some o -> o <= p_lb s).
+
+  Lemma final_of_inv T s : (1 <= T)%nat -> PInv s -> CInv T s -> all_exited s = true -> FinalP s.
+  Proof.
+    intros HT (I1 & I2 & I3 & I4 & I5 & I6 & I7 & I8 & I9 & I10) (C1 & C2 & C3 & C4 & C5 & C6) Hall.
+    cbn [view v_simple v_ongoing v_open v_obl v_lb v_ub v_sol v_nubs v_abort v_crash v_workers] in *.
+    pose proof (all_exited_spec s Hall) as Hex.
+    assert (Hin : In PExited (p_workers s)).
+    { destruct (p_workers s) as [|p ws] eqn:E; [cbn [length] in I9; lia|]. rewrite (Hex p); left; reflexivity. }
+    destruct (C5 Hin) as (E1 & E2 & E3).
+    split; [exact I1|]. split; [exact C1|]. split; [exact E3|]. split; [exact C3|].
+    intros o Ho. destruct (C4 o Ho) as [H|(n & [Hn|(p & Hp & Hown)] & _)]; [exact H| |].
+    - rewrite E1 in Hn. destruct Hn.
+    - rewrite (Hex p Hp) in Hown. discriminate.
+  Qed.
+
+  Definition presult_ok (r : presult) : Prop :=
+    pr_crash r = false /\ pr_exact r = true /\ pr_value r = OPT /\
+    (forall v, OPT = Some v ->
+       pr_lb r = v /\ pr_ub r = v /\ exists sol, pr_sol r = Some (sort_by dec_var_cmp sol) /\ feasible sol v) /\
+    (OPT = None -> pr_sol r = None /\ pr_lb r = IMIN).
+
+  Lemma finalP_result s :
+    FinalP s ->
+    (forall v, OPT = Some v -> p_lb s = v /\ exists sol, p_sol s = Some sol /\ feasible sol v) /\
+    (OPT = None -> p_sol s = None /\ p_lb s = IMIN).
+  Proof.
+    intros (_ & _ & _ & [Hmin Hinc] & Hopt). split.
+    - intros v Hv. pose proof (Hopt v Hv) as Hle. pose proof (opt_in_isize v Hv) as Hr.
+      destruct Hinc as [[_ Hlb]|(sol & Hsol & Hfeas)]; [lia|].
+      destruct (feasible_le_opt _ _ Hfeas) as (o & Ho & Hlo). rewrite Hv in Ho. inversion Ho; subst o.
+      assert (Heq : p_lb s = v) by lia. split; [exact Heq|]. exists sol. rewrite <- Heq. auto.
+    - intros Hnone. destruct Hinc as [[Hs Hlb]|(sol & Hsol & Hfeas)]; [auto|].
+      destruct (feasible_le_opt _ _ Hfeas) as (o & Ho & _). rewrite Hnone in Ho. discriminate.
+  Qed.
+
+  (* C03 (and the warm-start variant): every finished run, whatever the schedule, the number of workers and the fuel,
+     returns the optimum *)
+  Theorem par_optimal_primal T primal fuel sched : (1 <= T)%nat -> primal_okP primal ->
+    pr_end (par_maximize st_eqb cfg fuel T T primal sched) = PFinished ->
+    presult_ok (par_maximize st_eqb cfg fuel T T primal sched).
+  Proof.
+    intros HT Hp. unfold par_maximize.
+    destruct (par_run st_eqb cfg fuel (init_pstate st_eqb cfg T T primal) sched None []) as [[s' tr] e] eqn:E.
+    cbn [pr_end]. intros He. subst e.
+    destruct (par_run_cinv T _ _ _ _ _ _ _ _ (PInv_init T primal) (CInv_init T primal Hp) E) as (HI & HC & Hall).
+    pose proof (final_of_inv T s' HT HI HC (Hall eq_refl)) as HF.
+    destruct (finalP_result s' HF) as [Hsome Hnone]. destruct HF as (F1 & F2 & F3 & F4 & F5).
+    unfold presult_ok. cbn [pr_crash pr_exact pr_value pr_lb pr_ub pr_sol].
+    split; [exact F1|]. split; [rewrite F2; reflexivity|].
+    assert (Hcase : forall x : option Z, (exists v, x = Some v) \/ x = None) by (intros [v|]; eauto).
+    destruct (Hcase OPT) as [[v EO]|EO]; rewrite EO.
+    - destruct (Hsome v EO) as (Hlb & sol & Hsol & Hfeas). rewrite Hsol, Hlb. cbn [option_map].
+      split; [reflexivity|]. split; [|discriminate].
+      intros v' Hv'. inversion Hv'; subst v'. split; [reflexivity|]. split; [rewrite F3; exact Hlb|].
+      exists sol. auto.
+    - destruct (Hnone EO) as [Hsol Hlb]. rewrite Hsol, Hlb. cbn [option_map].
+      split; [reflexivity|]. split; [discriminate|]. auto.
+  Qed.
+
+  Theorem par_optimal T fuel sched : (1 <= T)%nat ->
+    pr_end (par_maximize st_eqb cfg fuel T T None sched) = PFinished ->
+    presult_ok (par_maximize st_eqb cfg fuel T T None sched).
+  Proof. intros HT. apply par_optimal_primal; [exact HT|]. intros pv psol H; discriminate. Qed.
+
+  (* ------------------------------------------------------------------ (B) termination: a strictly decreasing measure *)
+  Definition BInvV (T : nat) (v : vw) : Prop := v_abort v = false /\ Forall calm (v_workers v) /\ v_nubs v = T.
+  Definition BInv (T : nat) (s : pstate) : Prop := BInvV T (view s).
+
+  Lemma pstep_binv T s w s' : PInv s -> BInv T s -> pstep s w s' -> BInv T s'.
+  Proof.
+    intros HI (B1 & B2 & B3) Hst. pose proof HI as HI'. unfold PInv, PInvV, view in HI'.
+    cbn [view v_simple v_ongoing v_open v_obl v_lb v_ub v_sol v_nubs v_abort v_crash v_workers] in *.
+    destruct HI' as (I1 & I2 & I3 & I4 & I5 & I6 & I7 & I8 & I9 & I10).
+    unfold BInv, BInvV.
+    destruct Hst as [Ew G1 G2 G3 Hv|Ew G1 Hv|Ew G1 G2 G3 Hv|x rest Ew G1 G2 G3 Hv|x rest k Ew G1 G2 G3 G4 Hv
+                    |n Ew G1 Hv|n m o c ds polls Ew G1 Hc Hv|n inp m Ew Hv|n m o c ds polls Ew Hc Hv|n inp m Ew Hv
+                    |n inp m op' Ew L1 L2 Hv|n ub' Ew Hv|n ea k j Ew G1 G2 Hv];
+      rewrite Hv; unfold vW, setw;
+      cbn [v_simple v_ongoing v_open v_obl v_lb v_ub v_sol v_nubs v_abort v_crash v_workers];
+      pose proof (Forall_nth_error _ _ _ _ I6 Ew) as Hok; cbn [pc_ok] in Hok;
+      pose proof (Forall_nth_error _ _ _ _ B2 Ew) as Hcalm; cbn [calm] in Hcalm;
+      try congruence; try (destruct Hcalm; fail);
+      try (split; [assumption|]; split; [apply Forall_upd_nth; [assumption|exact I]|assumption]).
+    - destruct Hok as [Hg Hd]. destruct (K0 Restricted _ _ _ _ _ _ _ (or_introl eq_refl) Hg Hd Hc) as [-> Hmc].
+      split; [assumption|]. split; [apply Forall_upd_nth; [assumption|exact I]|assumption].
+    - split; [assumption|]. split; [apply Forall_upd_nth; [assumption|destruct (dd_is_exact m); exact I]|assumption].
+    - destruct Hok as [Hg Hd]. destruct (K0 Relaxed _ _ _ _ _ _ _ (or_intror eq_refl) Hg Hd Hc) as [-> Hmc].
+      split; [assumption|]. split; [apply Forall_upd_nth; [assumption|exact I]|assumption].
+    - split; [assumption|]. split; [apply Forall_upd_nth; [assumption|destruct (dd_is_exact m); exact I]|assumption].
+    - destruct ea; [destruct Hcalm|]. split; [assumption|]. split; [|assumption].
+      apply Forall_upd_nth; [|exact I]. rewrite Forall_map. eapply Forall_impl; [|exact B2]. intros a. apply calm_wake.
+  Qed.
+
+  Lemma BInv_init T primal : BInv T (init_pstate st_eqb cfg T T primal).
+  Proof.
+    unfold BInv. rewrite view_init. unfold BInvV.
+    cbn [v_simple v_ongoing v_open v_obl v_lb v_ub v_sol v_nubs v_abort v_crash v_workers].
+    split; [reflexivity|]. split; [|reflexivity].
+    apply Forall_forall. intros p Hin. apply repeat_spec in Hin. subst p. exact I.
+  Qed.
+
+  Notation wtM := (wt cfg M).
+  Definition AA (T : nat) : nat := (T + 8)%nat.
+  (* cost still to be paid by a worker: protocol steps of the node in progress + the sub-tree it may still enqueue *)
+  Definition fw (T : nat) (p : pc) : nat :=
+    match p with
+    | PExited => 0
+    | PParked => 1
+    | PGetWork => 2
+    | PNotify _ _ => T + 3
+    | PAbort _ => T + 4
+    | PEnqueue n _ _ => AA T * (wtM n - 1) + T + 4
+    | PUpdate2 n _ _ => AA T * (wtM n - 1) + T + 5
+    | PReadLb2 n => AA T * (wtM n - 1) + T + 6
+    | PUpdate1 n _ _ => AA T * (wtM n - 1) + T + 7
+    | PReadLb1 n => AA T * (wtM n - 1) + T + 8
+    end%nat.
+  Definition fnode (T : nat) (n : subproblem) : nat := (AA T * wtM n)%nat.
+  Definition Mu (T : nat) (v : vw) : nat := (sumf (fnode T) (v_simple v) + sumf (fw T) (v_workers v))%nat.
+
+  Lemma sumf_scale {A} (a : nat) (g : A -> nat) l : sumf (fun x => a * g x)%nat l = (a * sumf g l)%nat.
+  Proof. induction l as [|x l IH]; cbn [sumf]; [lia|]. rewrite IH. lia. Qed.
+
+  Definition is_parked (p : pc) : bool := match p with PParked => true | _ => false end.
+
+  Lemma sumf_fw_wake T ws : sumf (fw T) (map wake ws) = (sumf (fw T) ws + cntp is_parked ws)%nat.
+  Proof.
+    unfold cntp. induction ws as [|p ws IH]; cbn [map sumf]; [reflexivity|]. rewrite IH.
+    destruct p; cbn [wake fw is_parked]; lia.
+  Qed.
+
+  Lemma cntp_lt_length {A} (f : A -> bool) l w x : nth_error l w = Some x -> f x = false -> (cntp f l < length l)%nat.
+  Proof.
+    assert (Hle : forall l : list A, (cntp f l <= length l)%nat).
+    { intros l0. unfold cntp. induction l0 as [|y l0 IH]; cbn [sumf length]; [lia|]. destruct (f y); lia. }
+    revert w; induction l as [|y l IH]; intros [|w]; cbn [nth_error]; try discriminate.
+    - intros H Hf. inversion H; subst. unfold cntp. cbn [sumf length]. rewrite Hf. specialize (Hle l). unfold cntp in Hle. lia.
+    - intros H Hf. specialize (IH _ H Hf). unfold cntp in *. cbn [sumf length]. destruct (f y); lia.
+  Qed.
+
+  Lemma Mu_decreases T s w s' : PInv s -> BInv T s -> pstep s w s' -> (Mu T (view s') < Mu T (view s))%nat.
+  Proof.
+    intros HI (B1 & B2 & B3) Hst. pose proof HI as HI'. unfold PInv, PInvV, view in HI'.
+    cbn [view v_simple v_ongoing v_open v_obl v_lb v_ub v_sol v_nubs v_abort v_crash v_workers] in *.
+    destruct HI' as (I1 & I2 & I3 & I4 & I5 & I6 & I7 & I8 & I9 & I10).
+    destruct Hst as [Ew G1 G2 G3 Hv|Ew G1 Hv|Ew G1 G2 G3 Hv|x rest Ew G1 G2 G3 Hv|x rest k Ew G1 G2 G3 G4 Hv
+                    |n Ew G1 Hv|n m o c ds polls Ew G1 Hc Hv|n inp m Ew Hv|n m o c ds polls Ew Hc Hv|n inp m Ew Hv
+                    |n inp m op' Ew L1 L2 Hv|n ub' Ew Hv|n ea k j Ew G1 G2 Hv];
+      rewrite Hv; unfold Mu, vW, setw;
+      cbn [v_simple v_ongoing v_open v_obl v_lb v_ub v_sol v_nubs v_abort v_crash v_workers];
+      pose proof (Forall_nth_error _ _ _ _ I6 Ew) as Hok; cbn [pc_ok] in Hok;
+      pose proof (Forall_nth_error _ _ _ _ B2 Ew) as Hcalm; cbn [calm] in Hcalm;
+      try congruence; try (destruct Hcalm; fail).
+    - pose proof (sumf_upd_nth (fw T) w PExited _ _ Ew) as H. cbn [fw] in H. lia.
+    - pose proof (sumf_upd_nth (fw T) w PParked _ _ Ew) as H. cbn [fw] in H. lia.
+    - pose proof (sumf_upd_nth (fw T) w PGetWork _ _ Ew) as H. cbn [fw] in H.
+      rewrite (sumf_perm _ _ _ (pq_pop_perm _ _ _ _ G2)). cbn [sumf]. unfold fnode at 1, AA.
+      pose proof (wt_pos cfg M x). nia.
+    - pose proof (sumf_upd_nth (fw T) w (PReadLb1 x) _ _ Ew) as H. cbn [fw] in H.
+      rewrite (sumf_perm _ _ _ (pq_pop_perm _ _ _ _ G2)). cbn [sumf]. unfold fnode at 2. unfold AA in *.
+      pose proof (wt_pos cfg M x). destruct (wtM x) as [|q]; [lia|]. replace (S q - 1)%nat with q in H by lia. nia.
+    - pose proof (sumf_upd_nth (fw T) w (PNotify n false) _ _ Ew) as H. cbn [fw] in H. lia.
+    - destruct Hok as [Hg Hd]. destruct (K0 Restricted _ _ _ _ _ _ _ (or_introl eq_refl) Hg Hd Hc) as [-> Hmc].
+      pose proof (sumf_upd_nth (fw T) w (PUpdate1 n (mk_input cfg Restricted n (p_lb s)) m) _ _ Ew) as H. cbn [fw] in H. lia.
+    - pose proof (sumf_upd_nth (fw T) w (if dd_is_exact m then PNotify n false else PReadLb2 n) _ _ Ew) as H.
+      destruct (dd_is_exact m); cbn [fw] in H; lia.
+    - destruct Hok as [Hg Hd]. destruct (K0 Relaxed _ _ _ _ _ _ _ (or_intror eq_refl) Hg Hd Hc) as [-> Hmc].
+      pose proof (sumf_upd_nth (fw T) w (PUpdate2 n (mk_input cfg Relaxed n (p_lb s)) m) _ _ Ew) as H. cbn [fw] in H. lia.
+    - pose proof (sumf_upd_nth (fw T) w (if dd_is_exact m then PNotify n false else PEnqueue n inp m) _ _ Ew) as H.
+      destruct (dd_is_exact m); cbn [fw] in H; lia.
+    - destruct Hok as (Hg & Hd & (lb0 & c & ds & polls & Hlb0 & -> & Hc) & Hex & Hev).
+      pose proof (sumf_upd_nth (fw T) w (PNotify n false) _ _ Ew) as H. cbn [fw] in H.
+      set (cs := drain_cutset (mk_input cfg Relaxed n lb0) m) in *.
+      assert (Hk : (sumf wtM cs < wtM n)%nat).
+      { apply kids_weight; [eapply K5; eauto|]. intros c0 Hc0. eapply K3_depth; eauto. }
+      rewrite sumf_app, sumf_rev.
+      pose proof (sumf_kept_le (fnode T) (p_lb s) (sp_ub n) cs) as Hle.
+      assert (Hsc : sumf (fun c0 => fnode T (set_ub c0 (Z.min (sp_ub n) (sp_ub c0)))) cs = (AA T * sumf wtM cs)%nat).
+      { rewrite <- sumf_scale. apply sumf_ext. intros c0 _. reflexivity. }
+      rewrite Hsc in Hle.
+      assert (AA T * sumf wtM cs <= AA T * (wtM n - 1))%nat by (apply Nat.mul_le_mono_l; lia).
+      lia.
+    - destruct ea; [destruct Hcalm|].
+      assert (Ew' : nth_error (map wake (p_workers s)) w = Some (PNotify n false)) by (rewrite nth_error_map, Ew; reflexivity).
+      pose proof (sumf_upd_nth (fw T) w PGetWork _ _ Ew') as H. cbn [fw] in H. rewrite sumf_fw_wake in H.
+      pose proof (cntp_lt_length is_parked _ _ _ Ew eq_refl). lia.
+  Qed.
+
+  Lemma par_run_terminates T : forall fuel s sched last trace s' tr e, PInv s -> BInv T s ->
+    (Mu T (view s) < fuel)%nat ->
+    par_run st_eqb cfg fuel s sched last trace = (s', tr, e) -> e = PFinished.
+  Proof.
+    induction fuel as [|fuel IH]; intros s sched last trace s' tr e HI HB Hmu; [lia|]. cbn [par_run].
+    destruct (all_exited s) eqn:Eall.
+    - intros H; inversion H; subst. reflexivity.
+    - pose proof (no_deadlock_state s HI Eall) as Hen.
+      destruct (choose_spec (enabled s) sched last Hen) as (w & rest & Hch & Hin). rewrite Hch.
+      destruct (par_step_enabled s w Hin) as (s1 & st & Hst). rewrite Hst.
+      pose proof (step_cases _ _ _ _ HI Hst) as Hps.
+      apply IH; [eapply step_pinv; eauto|eapply pstep_binv; eauto|].
+      pose proof (Mu_decreases T s w s1 HI HB Hps). lia.
+  Qed.
+
+  Definition fuelP (T : nat) : nat := S ((T + 8) * (S M) ^ N + 2 * T).
+
+  Lemma Mu_init T primal : Mu T (view (init_pstate st_eqb cfg T T primal)) = ((T + 8) * (S M) ^ N + 2 * T)%nat.
+  Proof.
+    rewrite view_init. unfold Mu. cbn [v_simple v_workers sumf]. unfold fnode, AA, wt. cbn [root_node sp_depth].
+    rewrite Nat.sub_0_r.
+    assert (H : forall k, sumf (fw T) (repeat PGetWork k) = (2 * k)%nat).
+    { induction k as [|k IHk]; cbn [repeat sumf fw]; lia. }
+    rewrite H. fold pb. fold N. lia.
+  Qed.
+
+  (* B: every run, whatever the schedule, finishes within fuelP T transitions *)
+  Theorem par_terminates T primal fuel sched : (fuelP T <= fuel)%nat ->
+    pr_end (par_maximize st_eqb cfg fuel T T primal sched) = PFinished.
+  Proof.
+    intros Hf. unfold par_maximize.
+    destruct (par_run st_eqb cfg fuel (init_pstate st_eqb cfg T T primal) sched None []) as [[s' tr] e] eqn:E.
+    cbn [pr_end]. eapply (par_run_terminates T); [apply PInv_init|apply BInv_init| |exact E].
+    rewrite Mu_init. unfold fuelP in Hf. lia.
+  Qed.
+
+  (* B + C: total correctness for every schedule and every number of workers *)
+  Theorem par_correct T primal fuel sched : (1 <= T)%nat -> primal_okP primal -> (fuelP T <= fuel)%nat ->
+    pr_end (par_maximize st_eqb cfg fuel T T primal sched) = PFinished /\
+    presult_ok (par_maximize st_eqb cfg fuel T T primal sched).
+  Proof.
+    intros HT Hp Hf. pose proof (par_terminates T primal fuel sched Hf) as He. split; [exact He|].
+    apply par_optimal_primal; assumption.
+  Qed.
+
+  End PartBC.
+End ParProofs.
